@@ -7,6 +7,7 @@
 From Coq Require Import ZArith List.
 From Verif Require Import Lib.Params.
 From Verif Require Model.FfLimbs Model.FfConv Model.FfgLimbs Model.FfgConv Proofs.FfSqrt Proofs.FfgSqrt.
+From Verif Require Lib.Words Lib.GoGlue Gen.FfGlue Gen.FfgGlue Proofs.FfGlueEq Proofs.FfgGlueEq Model.FfLimbs Model.FfgLimbs Model.FfConv Model.FfgConv.
 Local Open Scope Z_scope.
 
 Module BN254.
@@ -45,9 +46,23 @@ Module Goldilocks.
   Proof. exact FfgSqrt.sqrt_total. Qed.
 End Goldilocks.
 
+(* ---- the element-level GLUE of the Go source (loops, calls, math/big conversions): tools/limbgen
+   re-translates these functions at every run (Gen/FfGlue.v, Gen/FfgGlue.v: a Go loop becomes a
+   fixpoint on its iteration count or on explicit fuel); each equals the model used above ---- *)
+Theorem C18_glue_is_the_source :
+  (forall z, FfGlue.Element_Legendre z = FfConv.legendre z) /\
+  (forall x, FfLimbs.canon x -> FfGlue.Element_Sqrt 29 29 28 x = GoGlue.Done (FfGlueEq.sqrt_val (FfConv.sqrt x))) /\
+  (forall z, FfgGlue.Element_Legendre z = FfgConv.legendre z) /\
+  (forall x, FfgLimbs.canon x -> FfgGlue.Element_Sqrt 33 33 32 x = GoGlue.Done (FfgGlueEq.sqrt_val (FfgConv.sqrt x))).
+Proof.
+  exact (conj FfGlueEq.gen_Legendre_eq (conj FfGlueEq.gen_Sqrt_canon_eq
+        (conj FfgGlueEq.gen_Legendre_eq FfgGlueEq.gen_Sqrt_canon_eq))).
+Qed.
+
 Print Assumptions BN254.C18_legendre.
 Print Assumptions BN254.C18_sqrt_of_square.
 Print Assumptions BN254.C18_sqrt_of_nonsquare.
 Print Assumptions Goldilocks.C18_legendre.
 Print Assumptions Goldilocks.C18_sqrt_of_square.
 Print Assumptions Goldilocks.C18_sqrt_of_nonsquare.
+Print Assumptions C18_glue_is_the_source.
